@@ -153,7 +153,11 @@ def change_delimiter_mid_life(c, strings, rng, ask):
     new = rng.choice(others)
     for s_ in strings:
         ask(c, s_)
-    c.delimiter = new
+    try:
+        c.delimiter = new
+    except AttributeError:  # an implementation whose delimiter cannot be assigned: nothing to check
+        probe.S.counters["wl:delimiter-not-assignable"] += 1
+        return
     for s_ in strings:
         ask(c, s_)
         ask(c, s_.replace(old, new))
